@@ -275,7 +275,7 @@ def pollard(ctx):
                 "factors returned by Pollardpm1 are the true primes", inputs, observed=[int(x) for x in factors])
 
 
-@ground("C05", "pollard_default_product", tier="thorough")
+@ground("C05", "pollard_default_product")
 def pollard_default_product():
   from pyvc import runtime
   runtime.install()
@@ -309,3 +309,31 @@ def pollard_default_product():
   detail = (f"primes<2^20: {len(primes)}, m bits: {m.bit_length()}, expected bits: {expected.bit_length()}, "
             f"m == expected: {m == expected}, first failing (prime, required exponent): {bad}")
   return divisible, detail
+
+
+
+@bounded("C05", "fast_product_every_length",
+         bound="ntheory_util.FastProduct (the product tree behind CheckPollardpm1's default product) on lists of every length "
+               "0..200 (small primes, ones, repeated values) and 4 long lists (up to 5000): equals math.prod",
+         functions=["ntheory_util.FastProduct"], exhaustive=False)
+def fast_product(ctx):
+  from pyvc import runtime
+  runtime.install()
+  from paranoid_crypto.lib import ntheory_util
+  rnd = _rnd(ctx, "fastprod")
+  pr = _sieve(8000)
+  for n in list(range(0, 201)) + [777, 1281, 2563, 5000]:
+    for kind in ("primes", "random", "ones_and_twos"):
+      vals = (pr[:n] if kind == "primes" and n <= len(pr) else
+              [rnd.randrange(1, 1 << 40) for _ in range(n)] if kind != "ones_and_twos" else
+              [1 + (i % 2) for i in range(n)])
+      ctx.case(key=(n, kind))
+      try:
+        got = ntheory_util.FastProduct(list(vals))
+      except Exception as e:   # pylint: disable=broad-except
+        if n == 0:
+          continue            # the empty product is not part of the documented domain
+        ctx.fail("FastProduct returns", dict(length=n, kind=kind), observed=repr(e)[:100])
+        continue
+      ctx.check(int(got) == math.prod(vals), "FastProduct(values) == product of the values", dict(length=n, kind=kind),
+                observed=int(got).bit_length(), expected=math.prod(vals).bit_length())
